@@ -94,7 +94,18 @@ func c16setup() {
 			if leg == "err" {
 				continue // silence: the exchange ends with the caller's deadline
 			}
-			b, _ := c16reply(q, leg).Pack()
+			rm := c16reply(q, leg)
+			lp := strings.Split(leg, ":")
+			if len(lp) > 3 { // "big": a reply of more than 4096 octets; "cut": cut in the middle of a record at 512 octets
+				for i := 0; i < 24; i++ {
+					rm.Extra = append(rm.Extra, &dns.TXT{Hdr: dns.RR_Header{Name: q.Question[0].Name, Rrtype: dns.TypeTXT, Class: dns.ClassINET, Ttl: 60},
+						Txt: []string{strings.Repeat("x", 200)}})
+				}
+			}
+			b, _ := rm.Pack()
+			if len(lp) > 3 && lp[3] == "cut" && len(b) > 512 {
+				b = b[:512]
+			}
 			c16.uc.WriteToUDP(b, addr)
 		}
 	}()
@@ -229,6 +240,14 @@ func c16gen(r *rand.Rand, thorough bool, emit func(c, cat string)) {
 			q++
 			emit(fmt.Sprintf("q=%d u=%s t=%s", q, legs(u), legs(t)), fmt.Sprintf("u%d-t%d", u, t))
 		}
+	}
+	for i := 0; i < 2+n/40; i++ { // large UDP replies: returned as received; TC replies cut mid-record: retried over TCP
+		q = 1 + r.Intn(1<<20)
+		tag++
+		emit(fmt.Sprintf("q=%d u=ok:%d:0:big t=%s", q, tag, legs(1)), "ubig-t1")
+		q = 1 + r.Intn(1<<20)
+		tag++
+		emit(fmt.Sprintf("q=%d u=ok:%d:1:cut t=%s", q, tag, legs(1)), "ucut-t1")
 	}
 	for i := 0; i < 2+n/40; i++ { // a TCP leg that never answers: the caller gets the leg's error at its deadline
 		q = 1 + r.Intn(1<<20)
